@@ -12,6 +12,7 @@ mod bls;
 mod treehash;
 mod merkle;
 mod mempool;
+mod datalayer;
 mod keys;
 mod builders;
 mod gen_types;
@@ -52,6 +53,7 @@ fn main() {
         "C10" => builders::run(&mut o, seed, thorough, replay),
         "C12" => merkle::run(&mut o, seed, thorough, replay),
         "C16" => keys::run(&mut o, seed, thorough, replay),
+        "C18" => datalayer::run(&mut o, seed, thorough, replay),
         "C19" => mempool::run(&mut o, seed, thorough, replay),
         "C17" => treehash::run(&mut o, seed, thorough, replay),
         "C15" => bls::run(&mut o, seed, thorough, replay),
